@@ -180,7 +180,7 @@ def ob_merge(env, N, cap, ge, gp, gpos, he, hp, hpers, left, right, lab='alpha',
 
             def post_label(u, j):
                 if (u, j) not in dec1:
-                    dec1[(u, j)] = decode_label(c, s2, w.a_ekey(u, j))
+                    dec1[(u, j)] = decode_label(c, s2, w.a_ekey(u, j), z3.UGT(E1[u], j))
                 return dec1[(u, j)]
 
             def must(f):
